@@ -1181,20 +1181,22 @@ func init() {
 				s.WildcardDatabase = true
 				b.Raw("*", CWild, "*")
 			case f == 1 && !g.Opt.Simple:
+				// this ON clause is the one dotted name with whitespace legal on
+				// both sides of the dot
 				s.WildcardDatabase, s.WildcardRetentionPolicy = true, true
 				b.Raw("*", CWild, "*")
-				b.PNone(".")
-				b.RawGap("*", CWild, "*", GapNone)
+				b.RawGap(".", CPunct, ".", GapRare)
+				b.RawGap("*", CWild, "*", GapRare)
 			case f == 2 && !g.Opt.Simple:
 				s.Database, s.WildcardRetentionPolicy = g.Name("db"), true
 				b.Ident(s.Database)
-				b.PNone(".")
-				b.RawGap("*", CWild, "*", GapNone)
+				b.RawGap(".", CPunct, ".", GapRare)
+				b.RawGap("*", CWild, "*", GapRare)
 			case f == 3 && !g.Opt.Simple:
 				s.Database, s.RetentionPolicy = g.Name("db"), g.Name("rp")
 				b.Ident(s.Database)
-				b.PNone(".")
-				b.IdentNone(s.RetentionPolicy)
+				b.RawGap(".", CPunct, ".", GapRare)
+				b.IdentAfterDot(s.RetentionPolicy)
 			default:
 				s.Database = g.Name("db")
 				b.Ident(s.Database)
